@@ -8,7 +8,9 @@ signed/zero preset; modes {energy, amplitude}; outputs {dense, sparse, 1-D margi
 import itertools
 import numpy as np
 
-from ..engine.explore import Outcome
+from ..engine.explore import Outcome, Holder
+
+_holder = Holder(depth=8)
 
 PID = 'C10'
 TIMEOUT = 10.0
@@ -186,6 +188,9 @@ def check_case(case):
             viols.append(('raise:%s' % type(e).__name__, '%s raised %r' % (describe(case), e)))
             continue
         trans += 3
+        for res_, nm_ in ((one, '1d'), (dense, 'dense'), (sp, 'sparse')):
+            for m_ in _holder.swap(res_, 'hilberthuang %s %s mode=%s' % (nm_, describe(case), mode)):
+                viols.append(('earlier-result-changed', m_))
         dense = np.asarray(dense)
         if dense.shape != (B, T) or np.asarray(one).shape != (B, M) or sp.shape != (B, T):
             viols.append(('shape', '%s: shapes dense %r sparse %r 1d %r' % (describe(case), dense.shape, sp.shape, np.asarray(one).shape)))
@@ -199,6 +204,19 @@ def check_case(case):
         tot = (a[inrange] ** 2).sum() if mode == 'energy' else a[inrange].sum()
         if dense.sum() != tot and np.array_equal(dense, exp2):
             viols.append(('total', '%s mode=%s: total %r expected %r' % (describe(case), mode, dense.sum(), tot)))
+        # the same values in Fortran memory order (the transpose of an [IMFs x time] array, a MATLAB file): same spectrum
+        if T >= 2 and M >= 2 and mode == 'amplitude':
+            for lname, f2, a2 in (('both-fortran', np.asfortranarray(f), np.asfortranarray(a)), ('freq-fortran', np.asfortranarray(f), a.copy()),
+                                  ('amp-fortran', f.copy(), np.asfortranarray(a))):
+                try:
+                    d2 = np.asarray(hilberthuang(f2, a2, edges.copy(), mode=mode))
+                    o2 = np.asarray(hilberthuang_1d(f2, a2, edges.copy(), mode=mode))
+                except Exception as e:
+                    viols.append(('layout:raise:%s' % type(e).__name__, '%s %s raised %r' % (describe(case), lname, e)))
+                    continue
+                trans += 2
+                if d2.shape != exp2.shape or not np.array_equal(d2, exp2) or not np.array_equal(o2, exp1):
+                    viols.append(('layout:%s' % lname, '%s: result depends on the memory layout of the inputs (%s)' % (describe(case), lname)))
     nontriv = bool(inrange.any() and (~inrange).any())
     cls = 'all-in' if inrange.all() else ('all-out' if not inrange.any() else 'mixed')
     return Outcome(cls=cls, transitions=trans, viols=viols, nontrivial=nontriv)
